@@ -8,6 +8,7 @@ use syn::*;
 mod arb;
 mod ctrl;
 mod loops;
+mod peq;
 pub(crate) use loops::Sort;
 
 type R<T> = std::result::Result<T, String>;
@@ -39,6 +40,19 @@ pub struct Translator {
     inventory: Vec<InvItem>,
     /// inherent / free functions that went through the loop route: (type or namespace, name) → status
     loop_fns: BTreeMap<(String, String), loops::LoopFn>,
+    // ---- `PartialEq` and the approx defaults (see emit/peq.rs)
+    approx_impls: Vec<peq::ApproxImpl>,
+    peq_units: Vec<peq::PeqUnit>,
+    /// base types with a translated / an untranslated hand-written `impl PartialEq`
+    peq_hand: BTreeSet<String>,
+    peq_hand_failed: BTreeSet<String>,
+    default_units: Vec<peq::DefaultUnit>,
+    /// inventory lines appended after those of the items proper: (name, file, route, reason, tokens, lean file, lean name)
+    late_inventory: Vec<(String, String, String, String, String, String, String)>,
+    peq_text: String,
+    peq_tags: Vec<String>,
+    defaults_text: String,
+    defaults_tags: Vec<String>,
 }
 
 fn fnv(s: &str) -> String {
@@ -81,6 +95,8 @@ const HAND_TRAITS: &[&str] = &[];
 const HAND_FNS: &[&str] = &[];
 /// free functions translated through the loop subset
 const LOOP_FNS: &[&str] = &["linear", "constrained_spline"];
+/// not part of the instances (the classes `AbsDiffEq` / `RelativeEq` have the relation only); translated on their
+/// own into `ApproxDefaults.lean` (`emit/peq.rs`)
 const SKIPPED_METHODS: &[&str] = &["default_epsilon", "default_max_relative"];
 
 fn base_type_name(ty: &Type) -> String {
@@ -166,6 +182,10 @@ struct BodyCx {
     /// the body is a function over `arbitrary::Unstructured` (see emit/arb.rs): `is_normal` is available
     /// (the binder `[Arb.StdF64 F]` is in scope)
     arb_mode: bool,
+    /// the body is `PartialEq::eq`: `==` / `!=` are the crate's own (`PEq.peq`), whatever the operand type
+    peq_eq: bool,
+    /// the body is a `default_epsilon` / `default_max_relative` (see emit/peq.rs)
+    approx_default: Option<peq::DefaultCx>,
 }
 
 impl BodyCx {
@@ -188,6 +208,8 @@ impl BodyCx {
             bad_siblings: BTreeSet::new(),
             ret_extra: vec![],
             arb_mode: false,
+            peq_eq: false,
+            approx_default: None,
         }
     }
     fn declare(&mut self, n: &str) {
@@ -227,6 +249,16 @@ impl Translator {
             tags: BTreeMap::new(),
             inventory: vec![],
             loop_fns: BTreeMap::new(),
+            approx_impls: vec![],
+            peq_units: vec![],
+            peq_hand: BTreeSet::new(),
+            peq_hand_failed: BTreeSet::new(),
+            default_units: vec![],
+            late_inventory: vec![],
+            peq_text: String::new(),
+            peq_tags: vec![],
+            defaults_text: String::new(),
+            defaults_tags: vec![],
         }
     }
 
@@ -245,6 +277,7 @@ impl Translator {
                     self.struct_order.push(info.name.clone());
                     self.structs.insert(info.name.clone(), info);
                 }
+                Item::Impl(im) => self.collect_approx_impl(im),
                 Item::Trait(t) => {
                     for ti in &t.items {
                         if let TraitItem::Fn(f) = ti {
@@ -418,6 +451,17 @@ impl Translator {
             // functions over the external crate's `Unstructured`: emit/arb.rs
             self.translate_arbitrary_impl(fname, im, &qual);
             return;
+        }
+        if trait_name.as_deref() == Some("PartialEq") {
+            // the crate's own `==`: emit/peq.rs
+            self.translate_partial_eq_impl(fname, im, sub, &qual);
+            return;
+        }
+        if let Some(t) = trait_name.as_deref() {
+            if t == "AbsDiffEq" || t == "RelativeEq" {
+                // `default_epsilon` / `default_max_relative` (skipped by every route below): emit/peq.rs
+                self.translate_approx_defaults(fname, im, sub, t, &qual);
+            }
         }
         let is_loop_type = LOOP_TYPES.contains(&base.as_str());
         let hand_trait = trait_name.as_ref().map(|t| HAND_TRAITS.contains(&t.as_str())).unwrap_or(false);
@@ -926,6 +970,7 @@ impl Translator {
             }
             "RelativeEq" => format!("RelativeEq {self_lean} F"),
             "Default" => format!("PDefault {self_lean}"),
+            "PartialEq" => format!("PEq {self_lean}"),
             other => return Err(format!("unsupported trait {other}")),
         };
         let binders_txt = Self::binder_text(&tyvars, &insts);
@@ -971,6 +1016,7 @@ impl Translator {
             "mul_assign" => "mulAssign".to_string(),
             "abs_diff_eq" => "absDiffEq".to_string(),
             "relative_eq" => "relativeEq".to_string(),
+            "eq" => "peq".to_string(),
             other => lean_ident(other),
         }
     }
@@ -982,6 +1028,7 @@ impl Translator {
         cx.opt_siblings = sib.opt.clone();
         cx.bad_siblings = sib.bad.clone();
         cx.opt_mode = opt;
+        cx.peq_eq = hdr.class_app.starts_with("PEq ");
         let (binders, self_mut, mut_params) = self.params_to_lean(&f.sig, &mut cx)?;
         if !mut_params.is_empty() {
             return Err("&mut parameter in trait method".into());
@@ -1481,6 +1528,8 @@ impl Translator {
                     BinOp::Le(_) => format!("(FloatLike.le {l} {r})"),
                     BinOp::Gt(_) => format!("(FloatLike.lt {r} {l})"),
                     BinOp::Ge(_) => format!("(FloatLike.le {r} {l})"),
+                    BinOp::Eq(_) if cx.peq_eq => format!("(PEq.peq {l} {r})"),
+                    BinOp::Ne(_) if cx.peq_eq => format!("(!(PEq.peq {l} {r}))"),
                     BinOp::Eq(_) => format!("(FloatLike.feq {l} {r})"),
                     BinOp::Ne(_) => format!("(!(FloatLike.feq {l} {r}))"),
                     BinOp::And(_) => format!("({l} && {r})"),
@@ -1595,6 +1644,9 @@ impl Translator {
     }
 
     fn call(&self, c: &ExprCall, cx: &mut BodyCx) -> R<String> {
+        if let Some(r) = self.approx_default_call(c, cx)? {
+            return Ok(r);
+        }
         if let Some(r) = self.loop_call(c, cx)? {
             return Ok(r);
         }
@@ -2088,6 +2140,7 @@ impl Translator {
             }
             m.insert(format!("{f}Attr.lean"), a);
         }
+        self.render_peq(&mut m);
         m
     }
 
